@@ -261,6 +261,13 @@ def run(ctx):
                     slots[rnd.randrange(len(slots))] += c
                 hx = slots[0] + "".join(p + s_ for p, s_ in zip(pairs, slots[1:]))
             judge_whitespace(ctx, {"hex": hx, "tag": "charcount-%d-bytes-%s" % (T, "legal" if nb in SIZES else "illegal")})
+        # hex digits replaced by Unicode look-alikes that become hex digits under NFKC / case folding (fullwidth, mathematical):
+        # bytes.fromhex refuses them; a decoder that normalises first would accept
+        for _ in range(ctx.scale(120, 10000)):
+            raw = gen.rbytes(rnd, rnd.choice(SIZES)).hex()
+            t, nrep = gen.confuse(rnd, raw if rnd.random() < 0.5 else raw.upper())
+            if nrep:
+                judge_whitespace(ctx, {"hex": t, "tag": "confusable-hex"})
         for hx in ("00 " * 16, "ab " * 16, "00 " * 20 + "00" * 2):
             n += 1
             if ctx.mine(n):
